@@ -324,7 +324,7 @@ func runPQ(s pqSc) (res verifsim.Result) {
 	ctx := context.Background()
 	q := NewProvideQueue()
 	m := &pqModel{keys: map[int]bool{}}
-	absorbed, restarts, emptyPfx, deqNonEmpty := 0, 0, 0, 0
+	absorbed, restarts, emptyPfx, deqNonEmpty, widePersist := 0, 0, 0, 0, 0
 	for i, op := range s.Ops {
 		step := fmt.Sprintf("step %d %s(%q)", i, op.Op, op.Prefix)
 		switch op.Op {
@@ -394,6 +394,9 @@ func runPQ(s pqSc) (res verifsim.Result) {
 			m.order, m.keys = nil, map[int]bool{}
 		case "restart":
 			restarts++
+			if len(m.order) > 10 {
+				widePersist++
+			}
 			d := dssync.MutexWrap(ds.NewMapDatastore())
 			batch := op.Batch
 			if batch < 1 {
@@ -485,6 +488,9 @@ func runPQ(s pqSc) (res verifsim.Result) {
 	if deqNonEmpty > 1 {
 		res.Class("multi-dequeue")
 	}
+	if widePersist > 0 {
+		res.Class("persist-drain-of-more-than-10-regions")
+	}
 	return
 }
 
@@ -532,7 +538,30 @@ func drawPQOp(t *rapid.T) pqOp {
 }
 
 func genPQ(t *rapid.T) pqSc {
-	return pqSc{Ops: rapid.SliceOfN(rapid.Custom(drawPQOp), 1, 30).Draw(t, "ops")}
+	ops := rapid.SliceOfN(rapid.Custom(drawPQOp), 1, 30).Draw(t, "ops")
+	if verifsim.Chance(t, "wide", 12) {
+		// a wide queue: 11-24 disjoint regions of one depth enqueued in a drawn order and persisted soon after (positions with
+		// more than one digit, in any base; more entries than any batch size)
+		l := rapid.IntRange(4, 6).Draw(t, "wideLen")
+		vals := rapid.Permutation(seqInts(1 << l)).Draw(t, "wideVals")
+		n := rapid.IntRange(11, min(1<<l, 24)).Draw(t, "wideN")
+		var burst []pqOp
+		for _, v := range vals[:n] {
+			burst = append(burst, pqOp{Op: "enq", Prefix: fmt.Sprintf("%0*b", l, v), Keys: []int{v}})
+		}
+		burst = append(burst, pqOp{Op: "restart", Batch: rapid.SampledFrom([]int{1, 2, 3, 4, 7, 10, 16, 50}).Draw(t, "wideBatch"), Twice: verifsim.Chance(t, "wideTwice", 25)})
+		at := rapid.IntRange(0, len(ops)).Draw(t, "wideAt")
+		ops = append(append(append([]pqOp{}, ops[:at]...), burst...), ops[at:]...)
+	}
+	return pqSc{Ops: ops}
+}
+
+func seqInts(n int) []int {
+	out := make([]int, n)
+	for i := range out {
+		out[i] = i
+	}
+	return out
 }
 
 func pqHasEmptyPrefixPersist(s pqSc) bool {
@@ -596,7 +625,7 @@ func FuzzVerif_C19_ProvideQueue(f *testing.F) {
 func c19ProvideQueueCheck() verifsim.Check[pqSc] {
 	return verifsim.Check[pqSc]{
 		Property: "C19", Part: "provide-queue",
-		Rule: "rapid state machine: 1-30 operations (enqueue under prefixes of 0-6 biased bits incl. the empty prefix, with 0-4 pooled keys matching the prefix; " +
+		Rule: "rapid state machine: 1-30 operations, in 12% of the cases with a burst of 11-24 disjoint one-key regions and a persist (batch 1-50) inserted (enqueue under prefixes of 0-6 biased bits incl. the empty prefix, with 0-4 pooled keys matching the prefix; " +
 			"dequeue; dequeue-matching; remove queued or foreign keys; clear; persist(batch 1-4, optionally over a stale earlier persist)+drain into a fresh or " +
 			"pre-filled queue) compared after every step with a list+set reference model (order, regions, size, emptiness, key set, prefix trie) and by a final full drain; " +
 			"non-trivial = a shorter prefix absorbed longer ones, or a persist/drain round trip happened",
